@@ -1,17 +1,32 @@
 """C17 - order parameters and exchange payloads cross the wire without loss (DESIGN.md section 4, C17).
 
-Outbound: the real exchange objects and raw clients over the loopback server; every order entry point of both clients x
-EVERY decimal c x 10^e with c in {1, 5, 12, 85, 100, 1230, 123456789} and e in -12..12 for each decimal argument: the
-received string is plain fixed-point and numerically equal; unset options are absent; endpoint, side, symbol and type
-match a table. Inbound: every decoding property of every wrapper class (table in worlds/payloads.py) fed payloads with
-every decimal shape, every millisecond of chosen seconds and year boundaries 2010-2100, microseconds of chosen seconds,
-and every order status of the code's tables.
+Outbound (the real exchange objects and raw clients over the loopback server):
+ * every order entry point of both clients x EVERY decimal c x 10^e with c in {1, 5, 12, 85, 100, 1230, 123456789} and e in
+   -12..12, plus decimals with 24 to 55 significant digits inside the magnitude range, for each decimal argument, each under the
+   default decimal context AND under reduced-precision contexts of the caller (prec 8, prec 12, prec 8 trapping Inexact /
+   Rounded): the received string is plain fixed-point and numerically equal;
+ * every combination of the options of every order entry point (side x pair x time in force x client ids x side effect x
+   amount_in_counter x stop-limit price x extra keyword arguments; for the raw clients every SUBSET of the optional
+   parameters) with pairwise different decimals rotated through the decimal arguments: the received parameter dict equals the
+   expected one EXACTLY - every key the caller set arrives with its value, nothing else arrives, endpoint / side / symbol / type
+   match a table.
+Inbound:
+ * every decoding property of every wrapper class (table in worlds/payloads.py) fed payloads with every decimal shape, every
+   millisecond of chosen seconds and year boundaries 2010-2100, microseconds of chosen seconds, and every documented order
+   status of an independent table (plus, when the library maps them, statuses of newer documentation);
+ * the account-level read API that COMPOSES several answers - Binance spot / cross / isolated Account.get_order_info,
+   get_open_orders, get_balances, cancel_order and Bitstamp Exchange.get_order_info, get_open_orders, get_balances, get_balance,
+   cancel_order - against a model exchange behind the loopback server: every documented status x every sequence of <= 3 trades
+   (asset x commission) x lookup key x pair, every store of <= 3 open orders x filter, every list of <= 3 balances.
 """
 import asyncio
 import collections
 import copy
 import datetime
+import decimal
+import itertools
 import json
+import os
 import re
 import urllib.parse
 from decimal import Decimal as D
@@ -23,90 +38,369 @@ from mc.framework import Result, h64
 from worlds import http as H
 
 PROPERTY = "C17"
-RULE = ("outbound case = (entry point, decimal argument, decimal value); inbound case = (wrapper class, property, value). "
-        "All cases of the product are executed on the real clients / wrapper classes. Distinct = distinct cases; "
-        "non-trivial = the decimal is one whose str() uses an exponent, or the timestamp has a non-zero sub-second part.")
+RULE = ("outbound case = (entry point, decimal value, decimal context of the caller) | (entry point, combination of options, "
+        "rotation of four different decimals through its decimal arguments); inbound case = (wrapper class, property, value) | "
+        "(account-level call, state of the model exchange). All cases of the product are executed on the real clients / wrapper "
+        "classes. Distinct = distinct cases; non-trivial = the decimal is one whose str() uses an exponent or that has more "
+        "digits than the caller's context, an option differs from its default, the timestamp has a non-zero sub-second part, the "
+        "order has trades / the store is not empty.")
 ASSUMPTIONS = [
-    "decimals c x 10^e, c in {1,5,12,85,100,1230,123456789}, e in -12..12 (both regimes of Decimal.__str__, trailing zeros)",
+    "decimals c x 10^e, c in {1,5,12,85,100,1230,123456789}, e in -12..12 (both regimes of Decimal.__str__, trailing zeros), "
+    "plus 8 decimals with 8..55 significant digits between 1e-12 and 1e12; caller contexts: default (prec 28), prec 8, prec 12, "
+    "prec 8 with the Inexact and Rounded traps enabled",
+    "options: sides BUY/SELL, pairs BTC/USDT and ETH/BTC (Bitstamp BTC/USD and ETH/EUR), timeInForce GTC (default) / IOC / FOK, "
+    "sideEffectType default / MARGIN_BUY / AUTO_REPAY, client ids set / unset, amount_in_counter unset / False / True, "
+    "stopLimitPrice set / unset, one extra keyword argument; raw clients: every subset of the optional parameters",
+    "a default the library transmits explicitly although the caller left it unset is accepted only where it is the exchange's "
+    "own default (sideEffectType=NO_SIDE_EFFECT, amount_in_counter=False); booleans are compared case-insensitively",
     "timestamps: every ms of 3 seconds per chosen year + first/last ms of each year 2010-2100; every 997th us of chosen "
     "seconds (quick) / every us (thorough) in 2010, 2037, 2039, 2099",
-    "order statuses: the ones in the code's own tables (newer exchange statuses cannot be looked up offline)",
+    "order statuses: Binance NEW, PARTIALLY_FILLED, FILLED, CANCELED, PENDING_CANCEL, REJECTED, EXPIRED; order lists EXECUTING, "
+    "ALL_DONE, REJECT; Bitstamp Open, Finished, Expired, Canceled (independent table). PENDING_NEW (open) and EXPIRED_IN_MATCH "
+    "(closed) are checked only if the library maps them (a loud refusal is not judged: the documentation is not available "
+    "offline); statuses found only in the library's own tables are fed and counted without a verdict",
+    "model exchange: orders with consistent documents (executedQty = sum of the trades; NEW / REJECTED orders have no trades), "
+    "decoy orders with the same id on the other symbol and in the other margin account; all-zero balances may be dropped",
     "loopback HTTP as for C16",
 ]
-BOUNDS = {"quick": dict(us_step=997), "thorough": dict(us_step=1)}
+BOUNDS = {"quick": dict(us_step=997, trades=3, open_orders=3, balances=3), "thorough": dict(us_step=1, trades=4, open_orders=3, balances=3)}
 EXPLANATION = "bounded exhaustive input enumeration through the real clients / wrapper classes; every case is an implementation run"
+# Genuine defects of the unchanged tree that the scenarios below report; they stay disabled until /repo is repaired
+# (enable with VERIF_ENABLE_PENDING=1, e.g. to test a repair: notes/I2-defect-1.py, notes/I2-defect-1.patch).
+PENDING_DEFECTS = {
+    "I2-defect-1": "decimal-valued EXTRA keyword arguments of the order entry points (icebergQty, limit_price, ...) are "
+                   "transmitted in exponent notation (8.5E-7, 1E+3): scenarios ('outk', <entry point>)",
+}
 COEFFS = (1, 5, 12, 85, 100, 1230, 123456789)
 DECIMALS = [D(c).scaleb(e) for c in COEFFS for e in range(-12, 13)]
+LONG_DECIMALS = [D("123456789012.123456789012"), D("999999999999.999999999999"), D("123456789012.12345678901234567"),
+                 D("1.0000000000000000000000000001"), D(0.1), D("1234.56789012"), D("1234567.5"),
+                 D("0.000000000001234567890123456789")]
+FOUR = (D("1.5"), D("0.00000085"), D("1E+3"), D("1234.5678"))
 PLAIN = re.compile(r"^\d+(\.\d+)?$")
 PB = bs.Pair("BTC", "USDT")
 PS = bs.Pair("BTC", "USD")
 BUY, SELL = bs.OrderOperation.BUY, bs.OrderOperation.SELL
 ONE = D("1")
+B_PAIRS = ((PB, "BTCUSDT"), (bs.Pair("ETH", "BTC"), "ETHBTC"))
+S_PAIRS = ((PS, "btcusd"), (bs.Pair("ETH", "EUR"), "etheur"))
+SIDES = ((BUY, "BUY", "buy"), (SELL, "SELL", "sell"))
+ACCS = ("spot", "cross", "iso")
+ORDER_PATH = {"spot": "/api/v3/order", "cross": "/sapi/v1/margin/order", "iso": "/sapi/v1/margin/order"}
+OCO_PATH = {"spot": "/api/v3/order/oco", "cross": "/sapi/v1/margin/order/oco", "iso": "/sapi/v1/margin/order/oco"}
+
+
+class Bool:
+    """Expected boolean parameter (compared case-insensitively with true / false)."""
+
+    def __init__(self, value):
+        self.value = value
+
+    def __repr__(self):
+        return f"Bool({self.value})"
+
+
+class Opt:
+    """Expected value of a parameter that may also be absent (an exchange default that the caller did not set)."""
+
+    def __init__(self, inner):
+        self.inner = inner
+
+    def __repr__(self):
+        return f"Opt({self.inner!r})"
+
+
+def contexts():
+    """(label, factory of the caller's decimal context or None for the default one)."""
+    def reduced(prec, traps=False):
+        def make():
+            ctx = decimal.Context(prec=prec)
+            if traps:
+                ctx.traps[decimal.Inexact] = True
+                ctx.traps[decimal.Rounded] = True
+            return ctx
+        return make
+    return [("default", None), ("prec8", reduced(8)), ("prec12", reduced(12)), ("prec8-traps", reduced(8, True))]
+
+
+def _acc(obj, acc):
+    return {"spot": obj.spot_account, "cross": obj.cross_margin_account, "iso": obj.isolated_margin_account}[acc]
+
+
+def _margin_keys(acc, exp, side_effect=None, raw=False):
+    if acc != "spot":
+        exp["isIsolated"] = Bool(acc == "iso")
+        if side_effect is not None:
+            exp["sideEffectType"] = side_effect
+        elif not raw:
+            exp["sideEffectType"] = Opt("NO_SIDE_EFFECT")
+    return exp
 
 
 def outbound_entries(be, se, bc, sc):
-    """name -> (fn(x) -> coroutine, method, path, fixed params expected, decimal params (carry x), params that must be absent)"""
+    """name -> (fn(x) -> coroutine, method, path, expect(x) -> exact expected parameter dict). x travels in EVERY decimal
+    argument of the entry point (all notations for every argument)."""
     E = {}
-    for acc_name, acc, path in (("spot", be.spot_account, "/api/v3/order"), ("cross", be.cross_margin_account, "/sapi/v1/margin/order"),
-                                ("iso", be.isolated_margin_account, "/sapi/v1/margin/order")):
-        oco_path = "/api/v3/order/oco" if acc_name == "spot" else "/sapi/v1/margin/order/oco"
-        E[f"binance.{acc_name}.market.amount"] = (
-            lambda x, acc=acc: acc.create_market_order(BUY, PB, amount=x), "POST", path,
-            dict(symbol="BTCUSDT", side="BUY", type="MARKET"), ["quantity"], ["quoteOrderQty", "price", "stopPrice", "timeInForce", "newClientOrderId"])
-        E[f"binance.{acc_name}.market.quote_amount"] = (
-            lambda x, acc=acc: acc.create_market_order(SELL, PB, quote_amount=x), "POST", path,
-            dict(symbol="BTCUSDT", side="SELL", type="MARKET"), ["quoteOrderQty"], ["quantity", "price", "stopPrice"])
-        E[f"binance.{acc_name}.limit"] = (
-            lambda x, acc=acc: acc.create_limit_order(SELL, PB, x, x), "POST", path,
-            dict(symbol="BTCUSDT", side="SELL", type="LIMIT", timeInForce="GTC"), ["quantity", "price"], ["stopPrice", "quoteOrderQty"])
-        E[f"binance.{acc_name}.stop_limit"] = (
-            lambda x, acc=acc: acc.create_stop_limit_order(BUY, PB, x, x, x), "POST", path,
-            dict(symbol="BTCUSDT", side="BUY", type="STOP_LOSS_LIMIT", timeInForce="GTC"), ["quantity", "price", "stopPrice"], ["quoteOrderQty"])
-        E[f"binance.{acc_name}.oco"] = (
-            lambda x, acc=acc: acc.create_oco_order(SELL, PB, x, x, x, stop_limit_price=x), "POST", oco_path,
-            dict(symbol="BTCUSDT", side="SELL", stopLimitTimeInForce="GTC"), ["quantity", "price", "stopPrice", "stopLimitPrice"],
-            ["listClientOrderId", "limitClientOrderId", "stopClientOrderId"])
-        E[f"binance.{acc_name}.oco.no_stop_limit"] = (
-            lambda x, acc=acc: acc.create_oco_order(BUY, PB, x, x, x), "POST", oco_path,
-            dict(symbol="BTCUSDT", side="BUY"), ["quantity", "price", "stopPrice"], ["stopLimitPrice", "stopLimitTimeInForce"])
+    for acc in ACCS:
+        a = _acc(be, acc)
+        path, oco_path = ORDER_PATH[acc], OCO_PATH[acc]
+        E[f"binance.{acc}.market.amount"] = (
+            lambda x, a=a: a.create_market_order(BUY, PB, amount=x), "POST", path,
+            lambda x, acc=acc: _margin_keys(acc, dict(symbol="BTCUSDT", side="BUY", type="MARKET", quantity=x)))
+        E[f"binance.{acc}.market.quote_amount"] = (
+            lambda x, a=a: a.create_market_order(SELL, B_PAIRS[1][0], quote_amount=x), "POST", path,
+            lambda x, acc=acc: _margin_keys(acc, dict(symbol="ETHBTC", side="SELL", type="MARKET", quoteOrderQty=x)))
+        E[f"binance.{acc}.limit"] = (
+            lambda x, a=a: a.create_limit_order(SELL, PB, x, x), "POST", path,
+            lambda x, acc=acc: _margin_keys(acc, dict(symbol="BTCUSDT", side="SELL", type="LIMIT", timeInForce="GTC", quantity=x, price=x)))
+        E[f"binance.{acc}.stop_limit"] = (
+            lambda x, a=a: a.create_stop_limit_order(BUY, B_PAIRS[1][0], x, x, x), "POST", path,
+            lambda x, acc=acc: _margin_keys(acc, dict(symbol="ETHBTC", side="BUY", type="STOP_LOSS_LIMIT", timeInForce="GTC", quantity=x,
+                                                      price=x, stopPrice=x)))
+        E[f"binance.{acc}.oco"] = (
+            lambda x, a=a: a.create_oco_order(SELL, PB, x, x, x, stop_limit_price=x), "POST", oco_path,
+            lambda x, acc=acc: _margin_keys(acc, dict(symbol="BTCUSDT", side="SELL", stopLimitTimeInForce="GTC", quantity=x, price=x,
+                                                      stopPrice=x, stopLimitPrice=x)))
+        E[f"binance.{acc}.oco.no_stop_limit"] = (
+            lambda x, a=a: a.create_oco_order(BUY, PB, x, x, x), "POST", oco_path,
+            lambda x, acc=acc: _margin_keys(acc, dict(symbol="BTCUSDT", side="BUY", quantity=x, price=x, stopPrice=x)))
     E["binance.cross.transfer_in"] = (lambda x: be.cross_margin_account.transfer_from_spot_account("BTC", x), "POST",
-                                      "/sapi/v1/margin/transfer", dict(asset="BTC", type="1"), ["amount"], [])
+                                      "/sapi/v1/margin/transfer", lambda x: dict(asset="BTC", type="1", amount=x))
     E["binance.cross.transfer_out"] = (lambda x: be.cross_margin_account.transfer_to_spot_account("BTC", x), "POST",
-                                       "/sapi/v1/margin/transfer", dict(asset="BTC", type="2"), ["amount"], [])
+                                       "/sapi/v1/margin/transfer", lambda x: dict(asset="BTC", type="2", amount=x))
     E["binance.iso.transfer_in"] = (lambda x: be.isolated_margin_account.transfer_from_spot_account("BTC", PB, x), "POST",
                                     "/sapi/v1/margin/isolated/transfer",
-                                    dict(asset="BTC", symbol="BTCUSDT", transFrom="SPOT", transTo="ISOLATED_MARGIN"), ["amount"], [])
-    E["binance.iso.transfer_out"] = (lambda x: be.isolated_margin_account.transfer_to_spot_account("BTC", PB, x), "POST",
+                                    lambda x: dict(asset="BTC", symbol="BTCUSDT", transFrom="SPOT", transTo="ISOLATED_MARGIN", amount=x))
+    E["binance.iso.transfer_out"] = (lambda x: be.isolated_margin_account.transfer_to_spot_account("USDT", PB, x), "POST",
                                      "/sapi/v1/margin/isolated/transfer",
-                                     dict(asset="BTC", symbol="BTCUSDT", transFrom="ISOLATED_MARGIN", transTo="SPOT"), ["amount"], [])
+                                     lambda x: dict(asset="USDT", symbol="BTCUSDT", transFrom="ISOLATED_MARGIN", transTo="SPOT", amount=x))
     # raw clients
     E["binance.client.spot.create_order"] = (
         lambda x: bc.spot_account.create_order("BTCUSDT", "BUY", "STOP_LOSS_LIMIT", time_in_force="GTC", quantity=x, price=x, stop_price=x),
-        "POST", "/api/v3/order", dict(symbol="BTCUSDT", side="BUY", type="STOP_LOSS_LIMIT"), ["quantity", "price", "stopPrice"],
-        ["quoteOrderQty", "newClientOrderId"])
+        "POST", "/api/v3/order",
+        lambda x: dict(symbol="BTCUSDT", side="BUY", type="STOP_LOSS_LIMIT", timeInForce="GTC", quantity=x, price=x, stopPrice=x))
     E["binance.client.cross.create_order.quote"] = (
         lambda x: bc.cross_margin_account.create_order("BTCUSDT", "SELL", "MARKET", quote_order_qty=x),
-        "POST", "/sapi/v1/margin/order", dict(symbol="BTCUSDT", side="SELL", type="MARKET"), ["quoteOrderQty"], ["quantity", "price"])
+        "POST", "/sapi/v1/margin/order",
+        lambda x: dict(symbol="BTCUSDT", side="SELL", type="MARKET", quoteOrderQty=x, isIsolated=Bool(False)))
     E["binance.client.spot.create_oco"] = (
         lambda x: bc.spot_account.create_oco("BTCUSDT", "SELL", x, x, x, stop_limit_price=x, stop_limit_time_in_force="GTC"),
-        "POST", "/api/v3/order/oco", dict(symbol="BTCUSDT", side="SELL"), ["quantity", "price", "stopPrice", "stopLimitPrice"], [])
+        "POST", "/api/v3/order/oco",
+        lambda x: dict(symbol="BTCUSDT", side="SELL", quantity=x, price=x, stopPrice=x, stopLimitPrice=x, stopLimitTimeInForce="GTC"))
     E["binance.client.iso.create_oco"] = (
         lambda x: bc.isolated_margin_account.create_oco("BTCUSDT", "SELL", x, x, x),
-        "POST", "/sapi/v1/margin/order/oco", dict(symbol="BTCUSDT", side="SELL"), ["quantity", "price", "stopPrice"], ["stopLimitPrice"])
+        "POST", "/sapi/v1/margin/order/oco",
+        lambda x: dict(symbol="BTCUSDT", side="SELL", quantity=x, price=x, stopPrice=x, isIsolated=Bool(True)))
     # bitstamp
-    E["bitstamp.market"] = (lambda x: se.create_market_order(BUY, PS, x), "POST", "/api/v2/buy/market/btcusd/", {}, ["amount"],
-                            ["price", "client_order_id"])
-    E["bitstamp.limit"] = (lambda x: se.create_limit_order(SELL, PS, x, x), "POST", "/api/v2/sell/btcusd/", {}, ["amount", "price"],
-                           ["client_order_id"])
+    E["bitstamp.market"] = (lambda x: se.create_market_order(BUY, PS, x), "POST", "/api/v2/buy/market/btcusd/", lambda x: dict(amount=x))
+    E["bitstamp.limit"] = (lambda x: se.create_limit_order(SELL, PS, x, x), "POST", "/api/v2/sell/btcusd/", lambda x: dict(amount=x, price=x))
     E["bitstamp.instant"] = (lambda x: se.create_instant_order(SELL, PS, x, amount_in_counter=True), "POST",
-                             "/api/v2/sell/instant/btcusd/", {}, ["amount"], ["client_order_id"])
-    E["bitstamp.instant.buy"] = (lambda x: se.create_instant_order(BUY, PS, x), "POST", "/api/v2/buy/instant/btcusd/", {},
-                                 ["amount"], ["client_order_id"])
-    E["bitstamp.client.limit"] = (lambda x: sc.create_limit_order("buy", "btcusd", x, x), "POST", "/api/v2/buy/btcusd/", {},
-                                  ["amount", "price"], ["client_order_id"])
-    E["bitstamp.client.market"] = (lambda x: sc.create_market_order("sell", "btcusd", x), "POST", "/api/v2/sell/market/btcusd/", {},
-                                   ["amount"], [])
+                             "/api/v2/sell/instant/btcusd/", lambda x: dict(amount=x, amount_in_counter=Bool(True)))
+    E["bitstamp.instant.buy"] = (lambda x: se.create_instant_order(BUY, S_PAIRS[1][0], x), "POST", "/api/v2/buy/instant/etheur/",
+                                 lambda x: dict(amount=x, amount_in_counter=Opt(Bool(False))))
+    E["bitstamp.client.limit"] = (lambda x: sc.create_limit_order("buy", "btcusd", x, x), "POST", "/api/v2/buy/btcusd/",
+                                  lambda x: dict(amount=x, price=x))
+    E["bitstamp.client.market"] = (lambda x: sc.create_market_order("sell", "btcusd", x), "POST", "/api/v2/sell/market/btcusd/",
+                                   lambda x: dict(amount=x))
+    E["bitstamp.client.instant"] = (lambda x: sc.create_instant_order("sell", "etheur", x, amount_in_counter=True), "POST",
+                                    "/api/v2/sell/instant/etheur/", lambda x: dict(amount=x, amount_in_counter=Bool(True)))
     return E
+
+
+def kwarg_entries(be, se, bc, sc):
+    """Decimal-valued EXTRA keyword arguments on every order entry point (PENDING: I2-defect-1)."""
+    E = {}
+    for acc in ACCS:
+        a, c = _acc(be, acc), _acc(bc, acc)
+        path, oco_path = ORDER_PATH[acc], OCO_PATH[acc]
+        E[f"binance.{acc}.market.kwarg"] = (
+            lambda x, a=a: a.create_market_order(BUY, PB, amount=ONE, icebergQty=x), "POST", path,
+            lambda x, acc=acc: _margin_keys(acc, dict(symbol="BTCUSDT", side="BUY", type="MARKET", quantity=ONE, icebergQty=x)))
+        E[f"binance.{acc}.limit.kwarg"] = (
+            lambda x, a=a: a.create_limit_order(SELL, PB, ONE, ONE, icebergQty=x), "POST", path,
+            lambda x, acc=acc: _margin_keys(acc, dict(symbol="BTCUSDT", side="SELL", type="LIMIT", timeInForce="GTC", quantity=ONE,
+                                                      price=ONE, icebergQty=x)))
+        E[f"binance.{acc}.stop_limit.kwarg"] = (
+            lambda x, a=a: a.create_stop_limit_order(BUY, PB, ONE, ONE, ONE, icebergQty=x), "POST", path,
+            lambda x, acc=acc: _margin_keys(acc, dict(symbol="BTCUSDT", side="BUY", type="STOP_LOSS_LIMIT", timeInForce="GTC",
+                                                      quantity=ONE, price=ONE, stopPrice=ONE, icebergQty=x)))
+        E[f"binance.{acc}.oco.kwarg"] = (
+            lambda x, a=a: a.create_oco_order(SELL, PB, ONE, ONE, ONE, limitIcebergQty=x), "POST", oco_path,
+            lambda x, acc=acc: _margin_keys(acc, dict(symbol="BTCUSDT", side="SELL", quantity=ONE, price=ONE, stopPrice=ONE,
+                                                      limitIcebergQty=x)))
+        E[f"binance.client.{acc}.create_order.kwarg"] = (
+            lambda x, c=c: c.create_order("BTCUSDT", "BUY", "LIMIT", time_in_force="GTC", quantity=ONE, price=ONE, icebergQty=x), "POST",
+            path, lambda x, acc=acc: _margin_keys(acc, dict(symbol="BTCUSDT", side="BUY", type="LIMIT", timeInForce="GTC", quantity=ONE,
+                                                            price=ONE, icebergQty=x), raw=True))
+        E[f"binance.client.{acc}.create_oco.kwarg"] = (
+            lambda x, c=c: c.create_oco("BTCUSDT", "SELL", ONE, ONE, ONE, stopIcebergQty=x), "POST", oco_path,
+            lambda x, acc=acc: _margin_keys(acc, dict(symbol="BTCUSDT", side="SELL", quantity=ONE, price=ONE, stopPrice=ONE,
+                                                      stopIcebergQty=x), raw=True))
+    E["bitstamp.market.kwarg"] = (lambda x: se.create_market_order(BUY, PS, ONE, some_amount=x), "POST", "/api/v2/buy/market/btcusd/",
+                                  lambda x: dict(amount=ONE, some_amount=x))
+    E["bitstamp.limit.kwarg"] = (lambda x: se.create_limit_order(SELL, PS, ONE, ONE, some_price=x), "POST", "/api/v2/sell/btcusd/",
+                                 lambda x: dict(amount=ONE, price=ONE, some_price=x))
+    E["bitstamp.instant.kwarg"] = (lambda x: se.create_instant_order(BUY, PS, ONE, some_amount=x), "POST", "/api/v2/buy/instant/btcusd/",
+                                   lambda x: dict(amount=ONE, amount_in_counter=Opt(Bool(False)), some_amount=x))
+    E["bitstamp.client.limit.kwarg"] = (lambda x: sc.create_limit_order("sell", "btcusd", ONE, ONE, limit_price=x), "POST",
+                                        "/api/v2/sell/btcusd/", lambda x: dict(amount=ONE, price=ONE, limit_price=x))
+    E["bitstamp.client.market.kwarg"] = (lambda x: sc.create_market_order("buy", "btcusd", ONE, some_amount=x), "POST",
+                                         "/api/v2/buy/market/btcusd/", lambda x: dict(amount=ONE, some_amount=x))
+    E["bitstamp.client.instant.kwarg"] = (lambda x: sc.create_instant_order("buy", "btcusd", ONE, some_amount=x), "POST",
+                                          "/api/v2/buy/instant/btcusd/",
+                                          lambda x: dict(amount=ONE, amount_in_counter=Opt(Bool(False)), some_amount=x))
+    return E
+
+
+VARIANT_GROUPS = ([f"binance.{acc}.{t}" for acc in ACCS for t in ("market", "limit", "stop_limit", "oco")] +
+                  [f"binance.client.{acc}.{t}" for acc in ACCS for t in ("create_order", "create_oco")] +
+                  ["bitstamp.exchange", "bitstamp.client"])
+
+
+def _subsets(items):
+    for n in range(len(items) + 1):
+        for sub in itertools.combinations(items, n):
+            yield dict(sub)
+
+
+def variant_cases(group, be, se, bc, sc):
+    """Yields (label, fn() -> coroutine, method, path, exact expected parameter dict, non-trivial?) for every combination of the
+    options of one group of entry points. Four pairwise different decimals are rotated through the decimal arguments, so that
+    an argument that ends up in another parameter is seen."""
+    parts = group.split(".")
+    rots = [FOUR[r:] + FOUR[:r] for r in range(4)]
+    if parts[0] == "binance" and parts[1] != "client":
+        acc, typ = parts[1], parts[2]
+        a = _acc(be, acc)
+        ses = (None,) if acc == "spot" else (None, "MARGIN_BUY", "AUTO_REPAY")
+        for (op, side, _), (pair, sym), cid, sef, (q, p, sp, slp) in itertools.product(SIDES, B_PAIRS, (None, "my-id_1"), ses, rots):
+            if typ == "oco" and cid is not None:
+                continue   # an order list has three client ids of its own (below)
+            kw = {} if sef is None else dict(side_effect_type=sef)
+            base = dict(symbol=sym, side=side)
+            if cid is not None and typ != "oco":
+                kw["client_order_id"] = cid
+                base["newClientOrderId"] = cid
+            if typ == "market":
+                for mode, extra in itertools.product(("amount", "quote"), (None, "FULL")):
+                    kw2 = dict(kw, **({"amount": q} if mode == "amount" else {"quote_amount": q}))
+                    exp = dict(base, type="MARKET", **({"quantity": q} if mode == "amount" else {"quoteOrderQty": q}))
+                    if extra:
+                        kw2["newOrderRespType"] = extra
+                        exp["newOrderRespType"] = extra
+                    yield ((side, sym, cid, sef, mode, extra, str(q)), (lambda a=a, op=op, pair=pair, kw2=kw2: a.create_market_order(op, pair, **kw2)),
+                           "POST", ORDER_PATH[acc], _margin_keys(acc, exp, sef), bool(cid or sef or extra))
+            elif typ in ("limit", "stop_limit"):
+                for tif in (None, "IOC", "FOK"):
+                    kw2 = dict(kw, **({} if tif is None else {"time_in_force": tif}))
+                    exp = dict(base, timeInForce=tif or "GTC", quantity=q, price=p)
+                    if typ == "limit":
+                        exp["type"] = "LIMIT"
+                        fn = (lambda a=a, op=op, pair=pair, q=q, p=p, kw2=kw2: a.create_limit_order(op, pair, q, p, **kw2))
+                    else:
+                        exp["type"] = "STOP_LOSS_LIMIT"
+                        exp["stopPrice"] = sp
+                        fn = (lambda a=a, op=op, pair=pair, q=q, p=p, sp=sp, kw2=kw2: a.create_stop_limit_order(op, pair, q, sp, p, **kw2))
+                    yield ((side, sym, cid, sef, tif, str(q)), fn, "POST", ORDER_PATH[acc], _margin_keys(acc, exp, sef), bool(cid or sef or tif))
+            else:
+                for with_slp, sltif, ids in itertools.product((False, True), (None, "FOK"), (False, True)):
+                    kw2 = dict(kw)
+                    exp = dict(base, quantity=q, price=p, stopPrice=sp)
+                    if with_slp:
+                        kw2["stop_limit_price"] = slp
+                        exp["stopLimitPrice"] = slp
+                        exp["stopLimitTimeInForce"] = sltif or "GTC"
+                    elif sltif is not None:
+                        exp["stopLimitTimeInForce"] = Opt(sltif)   # a time in force without a stop-limit price: left open
+                    if sltif is not None:
+                        kw2["stop_limit_time_in_force"] = sltif
+                    if ids:
+                        kw2.update(list_client_order_id="list-1", limit_client_order_id="limit-1", stop_client_order_id="stop-1")
+                        exp.update(listClientOrderId="list-1", limitClientOrderId="limit-1", stopClientOrderId="stop-1")
+                    yield ((side, sym, sef, with_slp, sltif, ids, str(q)),
+                           (lambda a=a, op=op, pair=pair, q=q, p=p, sp=sp, kw2=kw2: a.create_oco_order(op, pair, q, p, sp, **kw2)),
+                           "POST", OCO_PATH[acc], _margin_keys(acc, exp, sef), bool(sef or with_slp or sltif or ids))
+    elif parts[0] == "binance":
+        acc, typ = parts[2], parts[3]
+        c = _acc(bc, acc)
+        q, p, sp, slp = FOUR
+        if typ == "create_order":
+            options = [("time_in_force", ("timeInForce", "IOC")), ("quantity", ("quantity", q)), ("quote_order_qty", ("quoteOrderQty", p)),
+                       ("price", ("price", sp)), ("stop_price", ("stopPrice", slp)), ("new_client_order_id", ("newClientOrderId", "cid:/1")),
+                       ("newOrderRespType", ("newOrderRespType", "RESULT"))]
+            if acc != "spot":
+                options.append(("side_effect_type", ("sideEffectType", "AUTO_REPAY")))
+            for (_, side, _), (_, sym), sub in itertools.product(SIDES, B_PAIRS, _subsets(options)):
+                kw = {k: v[1] for k, v in sub.items()}
+                exp = dict(symbol=sym, side=side, type="TAKE_PROFIT_LIMIT", **{v[0]: v[1] for v in sub.values()})
+                yield ((side, sym, tuple(sorted(sub))), (lambda c=c, sym=sym, side=side, kw=kw: c.create_order(sym, side, "TAKE_PROFIT_LIMIT", **kw)),
+                       "POST", ORDER_PATH[acc], _margin_keys(acc, exp, raw=True), bool(sub))
+        else:
+            options = [("stop_limit_price", ("stopLimitPrice", slp)), ("stop_limit_time_in_force", ("stopLimitTimeInForce", "IOC")),
+                       ("list_client_order_id", ("listClientOrderId", "list 1")), ("limit_client_order_id", ("limitClientOrderId", "limit-1")),
+                       ("stop_client_order_id", ("stopClientOrderId", "stop-1")), ("selfTradePreventionMode", ("selfTradePreventionMode", "NONE"))]
+            if acc != "spot":
+                options.append(("side_effect_type", ("sideEffectType", "MARGIN_BUY")))
+            for (_, side, _), (_, sym), sub in itertools.product(SIDES, B_PAIRS, _subsets(options)):
+                kw = {k: v[1] for k, v in sub.items()}
+                exp = dict(symbol=sym, side=side, quantity=q, price=p, stopPrice=sp, **{v[0]: v[1] for v in sub.values()})
+                yield ((side, sym, tuple(sorted(sub))), (lambda c=c, sym=sym, side=side, kw=kw: c.create_oco(sym, side, q, p, sp, **kw)),
+                       "POST", OCO_PATH[acc], _margin_keys(acc, exp, raw=True), bool(sub))
+    else:
+        exchange_level = parts[1] == "exchange"
+        for (op, _, action), (pair, sym), cid, (q, p, _, _) in itertools.product(SIDES, S_PAIRS, (None, "my id/1"), rots):
+            kw = {} if cid is None else dict(client_order_id=cid)
+            base = {} if cid is None else dict(client_order_id=cid)
+            tgt = (op, pair) if exchange_level else (action, sym)
+            o = se if exchange_level else sc
+            yield (("market", action, sym, cid, str(q)), (lambda o=o, tgt=tgt, q=q, kw=kw: o.create_market_order(*tgt, q, **kw)), "POST",
+                   f"/api/v2/{action}/market/{sym}/", dict(base, amount=q), bool(cid))
+            for daily in (None, "True"):
+                kw2 = dict(kw, **({} if daily is None else {"daily_order": daily}))
+                exp = dict(base, amount=q, price=p, **({} if daily is None else {"daily_order": daily}))
+                yield (("limit", action, sym, cid, daily, str(q)), (lambda o=o, tgt=tgt, q=q, p=p, kw2=kw2: o.create_limit_order(*tgt, q, p, **kw2)),
+                       "POST", f"/api/v2/{action}/{sym}/", exp, bool(cid or daily))
+            for aic in ((None, False, True) if action == "sell" else (None, False)):
+                kw2 = dict(kw, **({} if aic is None else {"amount_in_counter": aic}))
+                exp = dict(base, amount=q, amount_in_counter=Bool(True) if aic else Opt(Bool(False)))
+                yield (("instant", action, sym, cid, aic, str(q)), (lambda o=o, tgt=tgt, q=q, kw2=kw2: o.create_instant_order(*tgt, q, **kw2)),
+                       "POST", f"/api/v2/{action}/instant/{sym}/", exp, bool(cid or aic))
+
+
+def compare_params(req, method, path, expect, sent=None):
+    """Exact comparison of what the server received with the expected parameter dict -> [(clause, detail)]."""
+    bad = []
+    pairs = urllib.parse.parse_qsl(req["body"].decode(), keep_blank_values=True) + \
+        urllib.parse.parse_qsl(req["raw_path"].partition("?")[2], keep_blank_values=True)
+    pairs = [(k, v) for k, v in pairs if k not in ("timestamp", "signature")]   # C16's business
+    params = dict(pairs)
+    if len(params) != len(pairs):
+        bad.append(("duplicate-parameter", f"parameters transmitted more than once: {sorted(k for k, _ in pairs)}"))
+    rpath = req["raw_path"].partition("?")[0]
+    if req["method"] != method or rpath != path:
+        bad.append(("endpoint", f"{req['method']} {rpath}, expected {method} {path}"))
+    for k, e in expect.items():
+        optional = isinstance(e, Opt)
+        if optional:
+            e = e.inner
+        v = params.get(k)
+        if v is None:
+            if not optional:
+                bad.append(("decimal-missing" if isinstance(e, D) else "fixed-parameter", f"{k} not transmitted, expected {e!r}"))
+        elif isinstance(e, D):
+            if not PLAIN.match(v):
+                bad.append(("decimal-notation", f"{k}={v!r} is not plain fixed-point notation (sent {e!r})"))
+            elif D(v) != e:
+                bad.append(("decimal-value", f"{k}={v!r} != {e} (sent {e!r})"))
+        elif isinstance(e, Bool):
+            if v.lower() != ("true" if e.value else "false"):
+                bad.append(("fixed-parameter", f"{k}={v!r}, expected {e.value}"))
+        elif v != e:
+            bad.append(("fixed-parameter", f"{k}={v!r}, expected {e!r}"))
+    for k, v in params.items():
+        if k not in expect:
+            bad.append(("unset-option-sent", f"{k}={v!r} although it was left unset"))
+    return bad
 
 
 class _Dummy:
@@ -117,8 +411,16 @@ class _Dummy:
         return None
 
 
+def pending_enabled():
+    return os.environ.get("VERIF_ENABLE_PENDING") == "1"
+
+
 def scenarios(tier, seed):
-    out = [("out", name) for name in sorted(outbound_entries(_Dummy(), _Dummy(), _Dummy(), _Dummy()))]
+    dummies = (_Dummy(), _Dummy(), _Dummy(), _Dummy())
+    out = [("out", name) for name in sorted(outbound_entries(*dummies))]
+    out += [("outv", group) for group in VARIANT_GROUPS]
+    if "I2-defect-1" not in PENDING_DEFECTS or pending_enabled():
+        out += [("outk", name) for name in sorted(kwarg_entries(*dummies))]
     try:
         from worlds import payloads
         out += [("in", w["name"]) for w in payloads.WRAPPERS]
@@ -126,71 +428,114 @@ def scenarios(tier, seed):
         # the same timestamp checks with a local time zone that is not UTC (decoders must not depend on it)
         out += [("in-tz", w["name"], tz) for w in payloads.WRAPPERS for tz in ("EST5EDT,M3.2.0,M11.1.0", "IST-5:30")
                 if w.get("ms_timestamps") or w.get("us_timestamps") or w.get("iso_timestamps")]
+        out += acct_scenarios(tier)
     except ImportError:
         pass
     return out
 
 
-async def _outbound(name, res):
-    from basana.external.binance import exchange as bex, client as bcli
-    from basana.external.bitstamp import exchange as sex, client as scli
-    H.patch_time()
-    srv = H.Server()
-    await srv.start()
+class _World:
+    """Loopback server + the four client objects of a scenario."""
+
+    async def __aenter__(self):
+        from basana.external.binance import exchange as bex, client as bcli
+        from basana.external.bitstamp import exchange as sex, client as scli
+        H.patch_time()
+        self.srv = H.Server()
+        await self.srv.start()
+        conn = aiohttp.TCPConnector(resolver=H.resolver(self.srv.port))
+        self.session = aiohttp.ClientSession(connector=conn)
+        d = bs.realtime_dispatcher()
+        self.be = bex.Exchange(d, H.KEY, H.SECRET, session=self.session, config_overrides=H.BINANCE_URL)
+        self.se = sex.Exchange(d, H.KEY, H.SECRET, session=self.session, config_overrides=H.BITSTAMP_URL)
+        self.bc = bcli.APIClient(H.KEY, H.SECRET, session=self.session, config_overrides=H.BINANCE_URL)
+        self.sc = scli.APIClient(H.KEY, H.SECRET, session=self.session, config_overrides=H.BITSTAMP_URL)
+        return self
+
+    async def __aexit__(self, *exc):
+        await self.session.close()
+        await self.srv.stop()
+
+    @property
+    def objs(self):
+        return self.be, self.se, self.bc, self.sc
+
+
+async def _send(srv, fn, ctx_factory=None):
+    """One call under the caller's decimal context -> (error or None, received requests)."""
+    srv.reqs.clear()
     try:
-        conn = aiohttp.TCPConnector(resolver=H.resolver(srv.port))
-        async with aiohttp.ClientSession(connector=conn) as session:
-            d = bs.realtime_dispatcher()
-            be = bex.Exchange(d, H.KEY, H.SECRET, session=session, config_overrides=H.BINANCE_URL)
-            se = sex.Exchange(d, H.KEY, H.SECRET, session=session, config_overrides=H.BITSTAMP_URL)
-            bc = bcli.APIClient(H.KEY, H.SECRET, session=session, config_overrides=H.BINANCE_URL)
-            sc = scli.APIClient(H.KEY, H.SECRET, session=session, config_overrides=H.BITSTAMP_URL)
-            fn, method, path, fixed, decs, absent = outbound_entries(be, se, bc, sc)[name]
-            for x in DECIMALS:
-                srv.reqs.clear()
-                err = None
-                try:
-                    await fn(x)
-                except Exception as e:  # noqa
-                    err = ("client-raised", f"{type(e).__name__}: {e}")
+        if ctx_factory is None:
+            await fn()
+        else:
+            with decimal.localcontext(ctx_factory()):
+                await fn()
+    except Exception as e:  # noqa
+        return ("client-raised", f"{type(e).__name__}: {e}"), list(srv.reqs)
+    return None, list(srv.reqs)
+
+
+async def _outbound(kind, name, res, only=None):
+    async with _World() as w:
+        table = outbound_entries(*w.objs) if kind == "out" else kwarg_entries(*w.objs)
+        fn, method, path, expect = table[name]
+        for label, ctx_factory in contexts():
+            prec = 28 if ctx_factory is None else ctx_factory().prec
+            for x in DECIMALS + LONG_DECIMALS:
+                if only is not None and (str(x), label) != only:
+                    continue
+                err, reqs = await _send(w.srv, lambda: fn(x), ctx_factory)
                 res.executions += 1
                 res.transitions += 1
                 res.validated += 1
-                key = h64((name, str(x)))
+                key = h64((name, str(x), label))
                 res.states.add(key)
-                if "E" in str(x):
+                if "E" in str(x) or len(x.as_tuple().digits) > prec:
                     res.nontrivial.add(key)
                 bad = [err] if err else []
                 if not err:
-                    req = srv.reqs[-1]
-                    params = dict(urllib.parse.parse_qsl(req["body"].decode(), keep_blank_values=True))
-                    params.update(urllib.parse.parse_qsl(req["raw_path"].partition("?")[2], keep_blank_values=True))
-                    rpath = req["raw_path"].partition("?")[0]
-                    if req["method"] != method or rpath != path:
-                        bad.append(("endpoint", f"{req['method']} {rpath}, expected {method} {path}"))
-                    for k, v in fixed.items():
-                        if params.get(k) != v:
-                            bad.append(("fixed-parameter", f"{k}={params.get(k)!r}, expected {v!r}"))
-                    for k in absent:
-                        if k in params:
-                            bad.append(("unset-option-sent", f"{k}={params[k]!r} although it was left unset"))
-                    for k in decs:
-                        v = params.get(k)
-                        if v is None:
-                            bad.append(("decimal-missing", f"{k} not transmitted"))
-                        elif not PLAIN.match(v):
-                            bad.append(("decimal-notation", f"{k}={v!r} is not plain fixed-point notation (sent {x!r})"))
-                        elif D(v) != x:
-                            bad.append(("decimal-value", f"{k}={v!r} != {x}"))
-                    if not res.samples:
-                        res.samples.append(dict(entry=name, decimal=str(x), request=req["method"] + " " + req["raw_path"],
-                                                body=req["body"].decode()))
+                    if len(reqs) != 1:
+                        bad.append(("endpoint", f"{len(reqs)} requests received"))
+                    else:
+                        bad += compare_params(reqs[0], method, path, expect(x))
+                    if not res.samples and reqs:
+                        res.samples.append(dict(entry=name, decimal=str(x), context=label, request=reqs[0]["method"] + " " + reqs[0]["raw_path"],
+                                                body=reqs[0]["body"].decode()))
                 res.outcomes["ok" if not bad else "bad"] += 1
                 for clause, detail in bad:
-                    res.violation(f"{PROPERTY}:out:{clause}:{name.split('.')[0]}", f"{detail}; entry={name} decimal={x!r}",
-                                  dict(kind="out", entry=name, decimal=str(x)), size=len(str(x)))
-    finally:
-        await srv.stop()
+                    ctx_note = "" if label == "default" else f" under the caller's decimal context {label}"
+                    res.violation(f"{PROPERTY}:out:{clause}:{name.split('.')[0]}" + (":kwarg" if kind == "outk" else "") +
+                                  ("" if label == "default" else ":reduced-context"),
+                                  f"{detail}; entry={name} decimal={x!r}{ctx_note}",
+                                  dict(kind=kind, entry=name, decimal=str(x), context=label), size=len(str(x)) + (0 if label == "default" else 100))
+
+
+async def _variants(group, res, only=None):
+    async with _World() as w:
+        for label, fn, method, path, expect, nontrivial in variant_cases(group, *w.objs):
+            if only is not None and repr(label) != only:
+                continue
+            err, reqs = await _send(w.srv, fn)
+            res.executions += 1
+            res.transitions += 1
+            res.validated += 1
+            key = h64((group, label))
+            res.states.add(key)
+            if nontrivial:
+                res.nontrivial.add(key)
+            bad = [err] if err else []
+            if not err:
+                if len(reqs) != 1:
+                    bad.append(("endpoint", f"{len(reqs)} requests received"))
+                else:
+                    bad += compare_params(reqs[0], method, path, expect)
+                if not res.samples and reqs and nontrivial:
+                    res.samples.append(dict(group=group, options=repr(label), request=reqs[0]["method"] + " " + reqs[0]["raw_path"],
+                                            body=reqs[0]["body"].decode()))
+            res.outcomes["ok" if not bad else "bad"] += 1
+            for clause, detail in bad:
+                res.violation(f"{PROPERTY}:out:{clause}:{group.split('.')[0]}:options", f"{detail}; entry group={group} options={label!r} "
+                              f"expected parameters={expect!r}", dict(kind="outv", group=group, label=repr(label)), size=len(repr(label)))
 
 
 # ---- inbound --------------------------------------------------------------------------------------------------------
@@ -320,16 +665,30 @@ def _inbound(name, tier, res, only_timestamps=False, tag=""):
                 except Exception as e:  # noqa
                     bad.append(("exception", f"{prop} on {text!r}: {type(e).__name__}: {e}"))
                 record((name, prop, text, tag), True, bad, dict(kind="in", wrapper=name, property=prop, value=text))
+    lib_tables = {} if only_timestamps or not w.get("statuses") else payloads.library_status_tables()
     for prop, spec in ({} if only_timestamps else w.get("statuses", {})).items():
-        for status, exp in spec["table"].items():
+        if_known = spec.get("if_known", {})
+        alphabet = dict(spec["table"])
+        alphabet.update(if_known)
+        for status in lib_tables.get(spec.get("family"), {}):
+            alphabet.setdefault(status, None)     # known to the library only: fed, counted, not judged
+        for status, exp in alphabet.items():
             bad = []
+            note = None
             try:
                 got = payloads.get_attr(build(spec["path"], status), prop)
-                if got is not exp:
+                if exp is None:
+                    note = "status-not-in-harness-table"
+                elif got is not exp:
                     bad.append(("status", f"{prop} for status {status!r} is {got!r}, expected {exp!r}"))
             except Exception as e:  # noqa
-                bad.append(("exception", f"{prop} on {status!r}: {type(e).__name__}: {e}"))
+                if status in spec["table"]:
+                    bad.append(("exception", f"{prop} on {status!r}: {type(e).__name__}: {e}"))
+                else:
+                    note = "newer-status-refused-loudly"   # no verdict: the documentation is not available offline
             record((name, prop, status), True, bad, dict(kind="in", wrapper=name, property=prop, value=status))
+            if note:
+                res.extra[note] += 1
     if not res.samples:
         res.samples.append(dict(kind="in", wrapper=name, decimals=sorted(w.get("decimals", {})),
                                 timestamps=sorted(list(w.get("ms_timestamps", {})) + list(w.get("us_timestamps", {})))))
@@ -395,7 +754,7 @@ def _record(res, name, case_key, nontrivial, bad, case):
         res.nontrivial.add(key)
     res.outcomes["ok" if not bad else "bad"] += 1
     for clause, detail in bad:
-        res.violation(f"{PROPERTY}:in:{clause}:{name}", f"{detail}; {case}", case, size=len(case.get("parts", [])))
+        res.violation(f"{PROPERTY}:in:{clause}:{name}", f"{detail}; {case}", case, size=case.get("size", len(case.get("parts", []))))
 
 
 def _get(j, path):
@@ -404,14 +763,419 @@ def _get(j, path):
     return j
 
 
+# ---- account-level read API against a model exchange -------------------------------------------------------------------
+TRADE_OPTIONS = [(a, v) for a in ("BNB", "BTC", "USDT") for v in ("0.00001234", "0")]
+FILLABLE = ("PARTIALLY_FILLED", "FILLED", "CANCELED", "PENDING_CANCEL", "EXPIRED")
+S_TX_OPTIONS = (("0.01000000", "193.81000", "0.12000"), ("0.00500000", "96.91000", "0.06000"), ("0.00000001", "0.00019", "0"))
+S_STATUSES = ("Open", "Finished", "Expired", "Canceled")
+B_BAL_VALUES = (("0", "0", "0"), ("0", "1.50000000", "0"), ("0.00000053", "0", "0"), ("0", "0", "0.50000000"), ("2", "0.25", "0.125"))
+S_BAL_VALUES = (("0", "0", "0"), ("0", "1.50", "1.50"), ("0.00000053", "0", "0.00000053"), ("28.92", "1.50", "30.42"))
+
+
+def acct_scenarios(tier):
+    from worlds import payloads
+    out = []
+    for kind in ACCS:
+        out += [("acct", "binance", kind, "order_info", st) for st in payloads.BINANCE_ORDER_STATUS]
+        out += [("acct", "binance", kind, what) for what in ("open_orders", "balances", "cancel")]
+    out += [("acct", "bitstamp", "-", "order_info", st) for st in S_STATUSES]
+    out += [("acct", "bitstamp", "-", what) for what in ("open_orders", "balances", "cancel")]
+    return out
+
+
+def _seqs(options, maxn):
+    for n in range(maxn + 1):
+        yield from itertools.product(options, repeat=n)
+
+
+def _fmt(x):
+    return format(x, "f")
+
+
+def _ms(ts):
+    return datetime.datetime(1970, 1, 1, tzinfo=datetime.timezone.utc) + datetime.timedelta(milliseconds=ts)
+
+
+def _b_trades(kind, symbol, order_id, seq, first_id):
+    from worlds import payloads
+    base = payloads.BINANCE_SPOT_TRADE if kind == "spot" else dict(payloads.BINANCE_MARGIN_TRADE, isIsolated=kind == "iso")
+    out = []
+    for j, (asset, commission) in enumerate(seq):
+        price, qty = D(f"{17000 + j}.50"), D(f"0.00{j + 1}00000")
+        out.append(dict(base, symbol=symbol, id=first_id + j, orderId=order_id, price=_fmt(price), qty=_fmt(qty), quoteQty=_fmt(price * qty),
+                        commission=commission, commissionAsset=asset, time=1668306875519 + 1000 * j + j))
+    return out
+
+
+def _b_order(kind, symbol, order_id, cid, status, side, trades, orig="0.01000000", price="16900.00000000", stop="16850.00000000"):
+    from worlds import payloads
+    base = payloads.BINANCE_SPOT_ORDER if kind == "spot" else dict(payloads.BINANCE_MARGIN_ORDER, isIsolated=kind == "iso")
+    return dict(base, symbol=symbol, orderId=order_id, clientOrderId=cid, status=status, side=side, origQty=orig, price=price, stopPrice=stop,
+                executedQty=_fmt(sum((D(t["qty"]) for t in trades), D("0.00000000"))),
+                cummulativeQuoteQty=_fmt(sum((D(t["quoteQty"]) for t in trades), D("0.00000000"))),
+                time=1668306875519, updateTime=1668306875519 + 5000, _open=payloads.BINANCE_ORDER_STATUS[status])
+
+
+class _Cmp:
+    def __init__(self):
+        self.bad = []
+
+    def eq(self, clause, what, got, exp):
+        if type(got) is not type(exp) or got != exp:
+            self.bad.append((clause, f"{what} is {got!r}, the exchange sent {exp!r}"))
+
+    def decimal(self, what, got, text):
+        exp = D(str(text))
+        if not isinstance(got, D) or got != exp:
+            self.bad.append(("decimal", f"{what} is {got!r}, the exchange sent {text!r}"))
+
+    def call(self, clause, what, fn):
+        try:
+            return fn()
+        except Exception as e:  # noqa
+            self.bad.append((clause, f"{what} raised {type(e).__name__}: {e}"))
+            return None
+
+
+def _check_b_order_common(c, o, doc, what):
+    from worlds import payloads
+    c.eq("field", f"{what}.id", c.call("exception", f"{what}.id", lambda: o.id), str(doc["orderId"]))
+    c.eq("status", f"{what}.is_open (status {doc['status']})", c.call("exception", f"{what}.is_open", lambda: o.is_open),
+         payloads.BINANCE_ORDER_STATUS[doc["status"]])
+    for attr, key in (("amount", "origQty"), ("amount_filled", "executedQty"), ("quote_amount_filled", "cummulativeQuoteQty"),
+                      ("limit_price", "price"), ("stop_price", "stopPrice")):
+        if key in doc:
+            c.decimal(f"{what}.{attr}", c.call("exception", f"{what}.{attr}", lambda attr=attr: getattr(o, attr)), doc[key])
+
+
+async def _acct_binance(sc, tier, res, only=None):
+    from worlds import payloads
+    _, _, kind, what = sc[:4]
+    async with _World() as w:
+        acct = _acc(w.be, kind)
+        other_margin = {"spot": ("cross", "iso"), "cross": ("iso",), "iso": ("cross",)}[kind]
+
+        async def case(label, model, call, check, nontrivial):
+            if only is not None and repr(label) != only:
+                return
+            w.srv.route = model.route
+            w.srv.reqs.clear()
+            c = _Cmp()
+            try:
+                got = await call()
+            except Exception as e:  # noqa
+                got = None
+                c.bad.append(("exception", f"{type(e).__name__}: {e}; requests: {[(m, k, wh, p) for m, k, wh, p in model.log]}"))
+            if not c.bad:
+                check(c, got)
+            _record(res, f"binance.{kind}.{what}", (sc, label), nontrivial, c.bad,
+                    dict(kind="acct", sc=list(sc), label=repr(label), size=len(repr(label))))
+
+        if what == "order_info":
+            status = sc[4]
+            maxn = BOUNDS[tier]["trades"] if status in FILLABLE else 0
+            for seq in _seqs(TRADE_OPTIONS, maxn):
+                for (pair, sym), lookup, include in itertools.product(B_PAIRS, ("order_id", "client_order_id"), (None, False)):
+                    if include is False and len(seq) > 1:
+                        continue
+                    other_sym = [s for _, s in B_PAIRS if s != sym][0]
+                    model = payloads.BinanceModel()
+                    trades = _b_trades(kind, sym, 9001, seq, 5000)
+                    doc = _b_order(kind, sym, 9001, "cid-A", status, "BUY" if len(seq) % 2 else "SELL", trades)
+                    model.orders[kind] += [doc, _b_order(kind, other_sym, 9001, "cid-A", "FILLED", "BUY",
+                                                         _b_trades(kind, other_sym, 9001, (("DECOY", "0.5"),), 6000), orig="0.5")]
+                    model.trades[kind][9001] = trades + _b_trades(kind, other_sym, 9001, (("DECOY", "0.5"),), 6000)
+                    for k2 in other_margin:   # same id, same symbol, in the OTHER margin account
+                        t2 = _b_trades(k2, sym, 9001, (("DECOY2", "0.25"),), 7000)
+                        model.orders[k2].append(_b_order(k2, sym, 9001, "cid-A", "FILLED", "SELL", t2, orig="0.25"))
+                        model.trades[k2][9001] = t2
+                    kw = dict(order_id="9001") if lookup == "order_id" else dict(client_order_id="cid-A")
+                    if include is False:
+                        kw["include_trades"] = False
+
+                    def check(c, info, doc=doc, trades=trades, include=include):
+                        _check_b_order_common(c, info, doc, "OrderInfo")
+                        c.eq("field", "OrderInfo.operation", c.call("exception", "operation", lambda: info.operation),
+                             BUY if doc["side"] == "BUY" else SELL)
+                        if include is False:
+                            return
+                        got_trades = c.call("exception", "OrderInfo.trades", lambda: sorted(info.trades, key=lambda t: int(t.id)))
+                        if got_trades is None:
+                            return
+                        c.eq("trades", "the number of trades of the order", len(got_trades), len(trades))
+                        for t, td in zip(got_trades, trades):
+                            c.eq("trades", f"trade {td['id']}.id", t.id, str(td["id"]))
+                            c.eq("trades", f"trade {td['id']}.order_id", t.order_id, str(td["orderId"]))
+                            for attr, key in (("price", "price"), ("amount", "qty"), ("quote_amount", "quoteQty"), ("commission", "commission")):
+                                c.decimal(f"trade {td['id']}.{attr}", getattr(t, attr), td[key])
+                            c.eq("trades", f"trade {td['id']}.commission_asset", t.commission_asset, td["commissionAsset"])
+                            c.eq("timestamp", f"trade {td['id']}.datetime", t.datetime, _ms(td["time"]))
+                        exp_fees = collections.defaultdict(D)
+                        for td in trades:
+                            if D(td["commission"]):
+                                exp_fees[td["commissionAsset"]] += D(td["commission"])
+                        got_fees = c.call("exception", "OrderInfo.fees", lambda: {k: v for k, v in dict(info.fees).items() if v})
+                        if got_fees is not None and got_fees != dict(exp_fees):
+                            c.bad.append(("fees", f"OrderInfo.fees is {got_fees}, the exchange reported the commissions "
+                                                  f"{[(td['commissionAsset'], td['commission']) for td in trades]} for this {doc['status']} order"))
+                    await case((seq, sym, lookup, include), model, lambda pair=pair, kw=kw: acct.get_order_info(pair, **kw), check, len(seq) > 0)
+        elif what == "open_orders":
+            options = [(sym, st) for _, sym in B_PAIRS for st in ("NEW", "PARTIALLY_FILLED", "PENDING_CANCEL")]
+            for seq in _seqs(options, BOUNDS[tier]["open_orders"]):
+                model = payloads.BinanceModel()
+                base = payloads.BINANCE_SPOT_OPEN_ORDER if kind == "spot" else dict(payloads.BINANCE_MARGIN_OPEN_ORDER, isIsolated=kind == "iso")
+                for i, (sym, st) in enumerate(seq):
+                    model.orders[kind].append(dict(
+                        base, symbol=sym, orderId=7000 + i, clientOrderId=f"open-{i}", status=st, origQty=f"0.0{i + 1}000000",
+                        executedQty="0.00000000" if st == "NEW" else f"0.00{i + 1}00000", cummulativeQuoteQty="0" if st == "NEW" else f"{i + 1}2.5",
+                        price=f"{25000 + i}.10000000", stopPrice=f"{24900 + i}.00000000", time=1676482455273 + i, _open=True))
+                model.orders[kind].append(dict(base, symbol=B_PAIRS[0][1], orderId=7900, clientOrderId="done", status="FILLED", _open=False))
+                for k2 in other_margin:
+                    model.orders[k2].append(dict(base, symbol=B_PAIRS[0][1], orderId=7800, clientOrderId="other-account", status="NEW", _open=True))
+                for flt in (None,) + tuple(B_PAIRS):
+                    served = [o for o in model.orders[kind] if o["_open"] and (flt is None or o["symbol"] == flt[1])]
+
+                    def check(c, got, served=served):
+                        ids = c.call("exception", "ids", lambda: sorted(o.id for o in got))
+                        c.eq("open-orders", "the ids of the open orders", ids, sorted(str(o["orderId"]) for o in served))
+                        if c.bad:
+                            return
+                        by_id = {str(o["orderId"]): o for o in served}
+                        for o in got:
+                            doc = by_id[o.id]
+                            _check_b_order_common(c, o, doc, f"OpenOrder {o.id}")
+                            c.eq("field", f"OpenOrder {o.id}.client_order_id", o.client_order_id, doc["clientOrderId"])
+                            c.eq("timestamp", f"OpenOrder {o.id}.datetime", o.datetime, _ms(doc["time"]))
+                    await case((seq, None if flt is None else flt[1]), model,
+                               lambda flt=flt: acct.get_open_orders() if flt is None else acct.get_open_orders(flt[0]), check, len(served) > 0)
+        elif what == "balances":
+            if kind == "iso":
+                combos = list(itertools.product(B_BAL_VALUES, B_BAL_VALUES))
+                stores = [()] + [((p, cmb),) for p in B_PAIRS for cmb in combos] + \
+                    [((B_PAIRS[i][0:2], c1), (B_PAIRS[1 - i][0:2], c2)) for i in (0, 1) for c1 in combos[::3] for c2 in combos[1::4]]
+                for store in stores:
+                    model = payloads.BinanceModel()
+                    for (pair, sym), (bv, qv) in store:
+                        doc = copy.deepcopy(payloads.BINANCE_ISOLATED_BALANCE)
+                        doc["symbol"] = sym
+                        for side, asset, (free, locked, borrowed) in (("baseAsset", pair.base_symbol, bv), ("quoteAsset", pair.quote_symbol, qv)):
+                            doc[side].update(asset=asset, free=free, locked=locked, borrowed=borrowed)
+                        model.account["iso"]["assets"].append(doc)
+
+                    def check(c, got, store=store):
+                        exp = {}
+                        for (pair, sym), (bv, qv) in store:
+                            exp[(pair.base_symbol, pair.quote_symbol)] = (bv, qv)
+                        got_map = c.call("exception", "balances", lambda: {(p.base_symbol, p.quote_symbol): b for p, b in got.items()})
+                        if got_map is None:
+                            return
+                        for key, (bv, qv) in exp.items():
+                            if key not in got_map:
+                                if any(D(x) for x in bv + qv):
+                                    c.bad.append(("balances", f"the isolated balance of {key} ({bv}, {qv}) is missing"))
+                                continue
+                            for side, vals in (("base_asset_balance", bv), ("quote_asset_balance", qv)):
+                                bal = c.call("exception", side, lambda side=side: getattr(got_map[key], side))
+                                if bal is None:
+                                    continue
+                                for attr, text in zip(("available", "locked", "borrowed"), vals):
+                                    c.decimal(f"{key}.{side}.{attr}", c.call("exception", attr, lambda attr=attr: getattr(bal, attr)), text)
+                                c.decimal(f"{key}.{side}.total", c.call("exception", "total", lambda: bal.total), _fmt(D(vals[0]) + D(vals[1])))
+                        for key in got_map:
+                            if key not in exp:
+                                c.bad.append(("balances", f"a balance for {key} that the exchange did not send"))
+                    await case(tuple((sym, cmb) for (_, sym), cmb in store), model, lambda: acct.get_balances(), check, bool(store))
+            else:
+                values = [v for v in B_BAL_VALUES if kind == "cross" or v[2] == "0"]
+                assets = ("BTC", "USDT", "BNB")
+                for n in range(BOUNDS[tier]["balances"] + 1):
+                    for names in itertools.permutations(assets, n):
+                        for vals in itertools.product(values, repeat=n):
+                            model = payloads.BinanceModel()
+                            rows = []
+                            for a, (free, locked, borrowed) in zip(names, vals):
+                                row = dict(asset=a, free=free, locked=locked)
+                                if kind == "cross":
+                                    row = dict(payloads.BINANCE_MARGIN_BALANCE, asset=a, free=free, locked=locked, borrowed=borrowed)
+                                rows.append(row)
+                            model.account[kind]["balances" if kind == "spot" else "userAssets"] = rows
+
+                            def check(c, got, names=names, vals=vals):
+                                for a, v in zip(names, vals):
+                                    if a not in got:
+                                        if any(D(x) for x in v):
+                                            c.bad.append(("balances", f"the balance of {a} (free, locked, borrowed = {v}) is missing"))
+                                        continue
+                                    attrs = ("available", "locked", "borrowed") if kind == "cross" else ("available", "locked")
+                                    for attr, text in zip(attrs, v):
+                                        c.decimal(f"{a}.{attr}", c.call("exception", attr, lambda attr=attr: getattr(got[a], attr)), text)
+                                    c.decimal(f"{a}.total", c.call("exception", "total", lambda: got[a].total), _fmt(D(v[0]) + D(v[1])))
+                                for a in got:
+                                    if a not in names:
+                                        c.bad.append(("balances", f"a balance for {a} that the exchange did not send"))
+                            await case((names, vals), model, lambda: acct.get_balances(), check, n > 0)
+        else:  # cancel
+            for (pair, sym), lookup, executed, price in itertools.product(B_PAIRS, ("order_id", "client_order_id"),
+                                                                        ("0.00000000", "0.00040000"), ("10000.00000000", "0.00000085", "15000")):
+                model = payloads.BinanceModel()
+                trades = _b_trades(kind, sym, 9001, (), 5000)
+                model.orders[kind].append(_b_order(kind, sym, 9001, "cid-A", "NEW", "SELL", trades, price=price))
+                base = payloads.BINANCE_SPOT_CANCELED_ORDER if kind == "spot" else dict(payloads.BINANCE_MARGIN_CANCELED_ORDER, isIsolated=kind == "iso")
+                doc = dict(base, symbol=sym, orderId=9001 if kind == "spot" else "9001", origClientOrderId="cid-A", price=price, executedQty=executed,
+                           cummulativeQuoteQty=_fmt(D(executed) * D(price)), status="CANCELED")
+                model.canceled[kind][9001] = doc
+                other_sym = [s for _, s in B_PAIRS if s != sym][0]
+                model.orders[kind].append(_b_order(kind, other_sym, 9001, "cid-A", "NEW", "BUY", ()))
+                model.canceled[kind].setdefault(9001, doc)
+                for k2 in other_margin:
+                    model.orders[k2].append(_b_order(k2, sym, 9001, "cid-A", "NEW", "BUY", (), orig="0.77"))
+                    model.canceled[k2][9001] = dict(doc, origQty="0.77", price="1")
+                kw = dict(order_id="9001") if lookup == "order_id" else dict(client_order_id="cid-A")
+
+                def check(c, got, doc=doc):
+                    _check_b_order_common(c, got, doc, "CanceledOrder")
+                await case((sym, lookup, executed, price), model, lambda pair=pair, kw=kw: acct.cancel_order(pair, **kw), check, True)
+
+
+async def _acct_bitstamp(sc, tier, res, only=None):
+    from worlds import payloads
+    what = sc[3]
+    async with _World() as w:
+        ex = w.se
+
+        async def case(label, model, call, check, nontrivial):
+            if only is not None and repr(label) != only:
+                return
+            w.srv.route = model.route
+            w.srv.reqs.clear()
+            c = _Cmp()
+            try:
+                got = await call()
+            except Exception as e:  # noqa
+                got = None
+                c.bad.append(("exception", f"{type(e).__name__}: {e}; requests: {model.log}"))
+            if not c.bad:
+                check(c, got)
+            _record(res, f"bitstamp.{what}", (sc, label), nontrivial, c.bad, dict(kind="acct", sc=list(sc), label=repr(label), size=len(repr(label))))
+
+        if what == "order_info":
+            status = sc[4]
+            for seq in _seqs(S_TX_OPTIONS, BOUNDS[tier]["trades"]):
+                for (pair, sym), lookup in itertools.product(S_PAIRS, ("order_id", "client_order_id")):
+                    base_key, quote_key = pair.base_symbol.lower(), pair.quote_symbol.lower()
+                    model = payloads.BitstampModel()
+                    txs = [{base_key: b, quote_key: q, "fee": f, "price": "19381.00", "datetime": f"2022-09-22 17:44:1{j}.689000",
+                            "tid": 248447671 + j, "type": 2} for j, (b, q, f) in enumerate(seq)]
+                    doc = dict(payloads.BITSTAMP_ORDER_STATUS, status=status, id=1536137941123072, client_order_id="cid-A",
+                               amount_remaining="0.01000000", transactions=txs, _pair=sym, _open_doc=None)
+                    decoy = dict(payloads.BITSTAMP_ORDER_STATUS, status="Finished", id=1536137941123073, client_order_id="cid-B",
+                                 amount_remaining="0.77", _pair=sym, _open_doc=None,
+                                 transactions=[{base_key: "5", quote_key: "7", "fee": "3", "price": "1", "datetime": "2022-09-22 17:44:11.689000",
+                                                "tid": 1, "type": 2}])
+                    model.orders += [decoy, doc]
+                    kw = dict(order_id="1536137941123072") if lookup == "order_id" else dict(client_order_id="cid-A")
+
+                    def check(c, info, seq=seq, pair=pair, status=status):
+                        if info is None:
+                            c.bad.append(("order-info", "no order info although the exchange knows the order"))
+                            return
+                        c.eq("field", "OrderInfo.id", c.call("exception", "id", lambda: info.id), "1536137941123072")
+                        c.eq("status", f"OrderInfo.is_open (status {status})", c.call("exception", "is_open", lambda: info.is_open),
+                             payloads.BITSTAMP_STATUS_TABLE[status])
+                        c.decimal("OrderInfo.amount_remaining", c.call("exception", "amount_remaining", lambda: info.amount_remaining), "0.01000000")
+                        c.decimal("OrderInfo.amount_filled", c.call("exception", "amount_filled", lambda: info.amount_filled),
+                                  _fmt(sum((D(b) for b, _, _ in seq), D(0))))
+                        c.decimal("OrderInfo.quote_amount_filled", c.call("exception", "quote_amount_filled", lambda: info.quote_amount_filled),
+                                  _fmt(sum((D(q) for _, q, _ in seq), D(0))))
+                        fees = c.call("exception", "fees", lambda: {k: v for k, v in dict(info.fees).items() if v})
+                        exp_fee = sum((D(f) for _, _, f in seq), D(0))
+                        if fees is not None and fees != ({pair.quote_symbol: exp_fee} if exp_fee else {}):
+                            c.bad.append(("fees", f"OrderInfo.fees is {fees}, the exchange reported the fees {[f for _, _, f in seq]} "
+                                                  f"{pair.quote_symbol} for this {status} order"))
+                    await case((seq, sym, lookup), model, lambda pair=pair, kw=kw: ex.get_order_info(pair, **kw), check, len(seq) > 0)
+        elif what == "open_orders":
+            options = [(i, t) for i in (0, 1) for t in ("0", "1")]
+            for seq in _seqs(options, BOUNDS[tier]["open_orders"]):
+                model = payloads.BitstampModel()
+                for i, (pi, typ) in enumerate(seq):
+                    pair, sym = S_PAIRS[pi]
+                    od = dict(payloads.BITSTAMP_OPEN_ORDER, id=str(1535407273615360 + i), price=f"{19000 + i}.5", amount=f"0.0{i + 1}204166",
+                              amount_at_create=f"0.0{i + 2}000000", type=typ, currency_pair=f"{pair.base_symbol}/{pair.quote_symbol}",
+                              datetime=f"2022-09-20 16:11:0{i}", client_order_id=f"open-{i}")
+                    model.orders.append(dict(payloads.BITSTAMP_ORDER_STATUS, id=int(od["id"]), _pair=sym, _open_doc=od))
+                model.orders.append(dict(payloads.BITSTAMP_ORDER_STATUS, id=99, status="Finished", _pair="btcusd", _open_doc=None))
+                for flt in (None,) + tuple(S_PAIRS):
+                    served = [o["_open_doc"] for o in model.orders if o["_open_doc"] is not None and (flt is None or o["_pair"] == flt[1])]
+
+                    def check(c, got, served=served):
+                        ids = c.call("exception", "ids", lambda: sorted(o.id for o in got))
+                        c.eq("open-orders", "the ids of the open orders", ids, sorted(o["id"] for o in served))
+                        if c.bad:
+                            return
+                        by_id = {o["id"]: o for o in served}
+                        for o in got:
+                            doc = by_id[o.id]
+                            c.decimal(f"OpenOrder {o.id}.limit_price", c.call("exception", "limit_price", lambda: o.limit_price), doc["price"])
+                            c.decimal(f"OpenOrder {o.id}.amount", c.call("exception", "amount", lambda: o.amount), doc["amount_at_create"])
+                            c.eq("field", f"OpenOrder {o.id}.operation", c.call("exception", "operation", lambda: o.operation),
+                                 BUY if doc["type"] == "0" else SELL)
+                            c.eq("field", f"OpenOrder {o.id}.pair", c.call("exception", "pair", lambda: str(o.pair)), doc["currency_pair"])
+                            c.eq("timestamp", f"OpenOrder {o.id}.datetime", c.call("exception", "datetime", lambda: o.datetime),
+                                 datetime.datetime.strptime(doc["datetime"], "%Y-%m-%d %H:%M:%S").replace(tzinfo=datetime.timezone.utc))
+                    await case((seq, None if flt is None else flt[1]), model,
+                               lambda flt=flt: ex.get_open_orders() if flt is None else ex.get_open_orders(flt[0]), check, len(served) > 0)
+        elif what == "balances":
+            currencies = ("usd", "btc", "eur")
+            for n in range(BOUNDS[tier]["balances"] + 1):
+                for names in itertools.permutations(currencies, n):
+                    for vals in itertools.product(S_BAL_VALUES, repeat=n):
+                        model = payloads.BitstampModel()
+                        model.balances = [dict(currency=cur, available=a, reserved=r, total=t) for cur, (a, r, t) in zip(names, vals)]
+
+                        def check_one(c, bal, cur, v):
+                            for attr, text in zip(("available", "reserved", "total"), v):
+                                c.decimal(f"{cur}.{attr}", c.call("exception", attr, lambda attr=attr: getattr(bal, attr)), text)
+
+                        def check(c, got, names=names, vals=vals):
+                            for cur, v in zip(names, vals):
+                                if cur.upper() not in got:
+                                    if any(D(x) for x in v):
+                                        c.bad.append(("balances", f"the balance of {cur} (available, reserved, total = {v}) is missing"))
+                                    continue
+                                check_one(c, got[cur.upper()], cur, v)
+                            for cur in got:
+                                if cur.lower() not in names:
+                                    c.bad.append(("balances", f"a balance for {cur} that the exchange did not send"))
+                        await case((names, vals), model, lambda: ex.get_balances(), check, n > 0)
+                        for cur, v in zip(names, vals):
+                            await case((names, vals, cur), model, lambda cur=cur: ex.get_balance(cur.upper()),
+                                       lambda c, got, cur=cur, v=v: check_one(c, got, cur, v), True)
+        else:  # cancel: amount and price are JSON numbers
+            for amount, price, typ in itertools.product(("0.00319028", "1e-08", "123456.78901234", "0.3"), ("17500", "20925.98", "0.1"), (0, 1)):
+                model = payloads.BitstampModel()
+                model.canceled["1538604691881987"] = dict(id=1538604691881987, amount=json.loads(amount), price=json.loads(price), type=typ)
+                model.canceled["1538604691881988"] = dict(id=1538604691881988, amount=5, price=7, type=1 - typ)
+
+                def check(c, got, amount=amount, price=price, typ=typ):
+                    c.eq("field", "CanceledOrder.id", c.call("exception", "id", lambda: got.id), "1538604691881987")
+                    c.decimal("CanceledOrder.amount", c.call("exception", "amount", lambda: got.amount), repr(json.loads(amount)))
+                    c.decimal("CanceledOrder.limit_price", c.call("exception", "limit_price", lambda: got.limit_price), repr(json.loads(price)))
+                    c.eq("field", "CanceledOrder.operation", c.call("exception", "operation", lambda: got.operation), BUY if typ == 0 else SELL)
+                for oid in ("1538604691881987", 1538604691881987):
+                    await case((amount, price, typ, type(oid).__name__), model, lambda oid=oid: ex.cancel_order(oid), check, True)
+
+
 def run_scenario(sc, tier):
     res = Result()
-    if sc[0] == "out":
-        asyncio.run(_outbound(sc[1], res))
+    if sc[0] in ("out", "outk"):
+        asyncio.run(_outbound(sc[0], sc[1], res))
+    elif sc[0] == "outv":
+        asyncio.run(_variants(sc[1], res))
+    elif sc[0] == "acct":
+        asyncio.run(_acct_binance(sc, tier, res) if sc[1] == "binance" else _acct_bitstamp(sc, tier, res))
     elif sc[0] == "sums":
         _sums(sc[1], tier, res)
     elif sc[0] == "in-tz":
-        import os
         import time as _time
         old = os.environ.get("TZ")
         os.environ["TZ"] = sc[2]
@@ -431,9 +1195,16 @@ def run_scenario(sc, tier):
 
 def replay(rep):
     res = Result()
-    if rep["kind"] == "out":
-        asyncio.run(_outbound(rep["entry"], res))
-        return [v["message"] for v in res.violations if f"decimal={D(rep['decimal'])!r}" in v["message"]]
+    if rep["kind"] in ("out", "outk"):
+        asyncio.run(_outbound(rep["kind"], rep["entry"], res, only=(rep["decimal"], rep.get("context", "default"))))
+        return [v["message"] for v in res.violations]
+    if rep["kind"] == "outv":
+        asyncio.run(_variants(rep["group"], res, only=rep["label"]))
+        return [v["message"] for v in res.violations]
+    if rep["kind"] == "acct":
+        sc = tuple(rep["sc"])
+        asyncio.run(_acct_binance(sc, "quick", res, only=rep["label"]) if sc[1] == "binance" else _acct_bitstamp(sc, "quick", res, only=rep["label"]))
+        return [v["message"] for v in res.violations]
     if rep["kind"] == "sums":
         _sums(rep["wrapper"], "quick", res)
         return [v["message"] for v in res.violations if str(rep["parts"][0]) in v["message"]][:5]
